@@ -2964,7 +2964,7 @@ int real_sched_yield(void) {
 #if MYTH_WRAP == MYTH_WRAP_VANILLA
   return sched_yield();
 #elif MYTH_WRAP == MYTH_WRAP_LD
-  return sched_yield();
+  return __real_sched_yield();
 #elif MYTH_WRAP == MYTH_WRAP_DL
   if (!real_function_table.sched_yield) ensure_real_functions();
   assert(real_function_table.sched_yield);
